@@ -53,7 +53,13 @@ def run_case(case):
         if ok:
             ok = await stage("version", ezsp.version())
         if ok:
-            await stage("command", ezsp.getConfigurationValue(t_.EzspConfigId.CONFIG_STACK_PROFILE))
+            ok = await stage("command", ezsp.getConfigurationValue(t_.EzspConfigId.CONFIG_STACK_PROFILE))
+        if ok and not fh2n and not fn2h and boot == "none":
+            # "from then on every frame": a run long enough to take the request sequence number past 255
+            async def many():
+                for _ in range(300):
+                    await ezsp.nop()
+            await stage("many", many())
         # ---- trace
         tr = [{"a": "cfg", "ncpver": ver, "path": "socket" if path.startswith("socket") else "serial", "boot": boot}]
         for n in rig.notes:
